@@ -425,6 +425,12 @@ def k6(chk, repo):
                 continue
             key = "Transform.%s %s" % (mn, sig_txt(r.sigma))
             sel = [e for e in r.events if e.kind in ("test", "select") and any(str(d_).startswith("in:") for d_ in (e.d.get("dep") or ()))]
+            # a store through an input-valued index / boolean mask (ref_axis[aligned, :] = other axis) is the same selection
+            msk = [e for e in r.events if e.kind == "store" and any(str(d_).startswith("in:") for sv in (e.d.get("sub_vals") or ()) for d_ in (getattr(sv, "dep", None) or ()))]
+            if msk and not sel:
+                e = msk[0]
+                chk.violation("K6", key, "%s:%d" % (e.func.mod.rel, e.lineno), "part of the reference axis / frame is overwritten through an index or mask computed from the inputs (%s in %s)" % (" ".join((e.d.get("target") or "").split())[:80], e.func.qual))
+                continue
             if sel:
                 e = sel[0]
                 chk.violation("K6", key, "%s:%d" % (e.func.mod.rel, e.lineno), "the reference axis / frame is selected by a condition on the inputs (%s in %s)" % (" ".join((e.d.get("pred") or "").split())[:80], e.func.qual))
